@@ -551,7 +551,7 @@ def r5_setitem_routing(rep, src):
             calls.append(('raw', args[1:], kw))
         heap = H.Heap(src.mod(PM), hooks={'.set_field_to_simple_value': simple, '.set_field_from_raw_string': raw})
         heap.symbolic_strings = True
-        para = heap.alloc('Paragraph', {}, name='@paragraph')
+        para = heap.alloc('Paragraph', {'has_duplicate_fields': False}, name='@paragraph')
         me = heap.alloc('Deb822ParagraphToStrWrapperMixin', {
             '_preserve_field_comments_on_field_updates': False, '_auto_resolve_ambiguous_fields': False,
             '_auto_map_initial_line_whitespace': map_ws, '_auto_map_final_newline_in_multiline_values': map_nl,
@@ -616,6 +616,57 @@ def r5_setitem_routing(rep, src):
                         rep.ok('C05.R5', f.site, what, msg)
                     else:
                         rep.fail('C05.R5', f.site, what, msg, where=f.where)
+    # an assignment is carried out whatever the field holds already: a field whose value has several lines and is assigned the text of
+    # its FIRST line (with or without blanks around it), an empty first line assigned '', the value it has assigned again -- one call
+    # on the paragraph each time, with the new value (decided texts; comment preservation on and off)
+    for preserve in (False, True):
+        for old_lines, new_value, label in (([' first\n', ' second\n'], 'first', 'a two-line value is assigned its first line'),
+                                            (['\n', ' libc6,\n', ' libfoo\n'], '', 'a value that starts on the next line is assigned the empty text'),
+                                            ([' first\n', ' second\n'], '  first ', 'a two-line value is assigned its first line with blanks around it'),
+                                            ([' same\n'], 'same', 'a one-line value is assigned again')):
+            calls = []
+
+            def set_simple(it, args, kw, calls=calls):
+                calls.append(('simple', args[1:], kw))
+
+            def set_raw(it, args, kw, calls=calls):
+                calls.append(('raw', args[1:], kw))
+
+            def line_text(it, args, kw, old_lines=old_lines):
+                if args and isinstance(args[0], H.Ref) and args[0].name.startswith('@old_line'):
+                    return old_lines[int(args[0].name[len('@old_line'):])]
+                if args and isinstance(args[0], H.Ref) and args[0].name == '@old_value':
+                    return ''.join(old_lines)
+                return NotImplemented
+
+            def line_content(it, args, kw, old_lines=old_lines):
+                if args and isinstance(args[0], H.Ref) and args[0].name.startswith('@old_line'):
+                    return old_lines[int(args[0].name[len('@old_line'):])].rstrip('\n')
+                return NotImplemented
+            heap = H.Heap(src.mod(PM), hooks={'.set_field_to_simple_value': set_simple, '.set_field_from_raw_string': set_raw, '.get_kvpair_element': lambda it, args, kw: it.h.kv,
+                                              '.convert_to_text': line_text, '.convert_content_to_text': line_content, '.dump': line_text})
+            lines_ = [heap.alloc('Deb822ValueLineElement', {}, name='@old_line%d' % k_) for k_ in range(len(old_lines))]
+            ve_ = heap.alloc('Deb822ValueElement', {'value_lines': heap.new_list(lines_), '_value_entry_elements': heap.new_list(lines_)}, name='@old_value')
+            heap.kv = heap.alloc('Deb822KeyValuePairElement', {'comment_element': None, '_comment_element': None, 'value_element': ve_, '_value_element': ve_}, name='@old_field')
+            para = heap.alloc('Paragraph', {'has_duplicate_fields': False}, name='@paragraph')
+            me = heap.alloc('Deb822ParagraphToStrWrapperMixin', {
+                '_preserve_field_comments_on_field_updates': preserve, '_auto_resolve_ambiguous_fields': True,
+                '_auto_map_initial_line_whitespace': True, '_auto_map_final_newline_in_multiline_values': True, '_paragraph': para}, name='@wrapper')
+            what = '%s (comment preservation %s): the paragraph is updated' % (label, 'on' if preserve else 'off')
+            try:
+                H.Interp(heap).call(H.Closure(f.node, {}, me, f.cls), [item, new_value])
+            except H.Raised as x:
+                rep.fail('C05.R5', f.site, what, 'raises %s (line %d)' % (x.exc, x.lineno), where=f.where)
+                continue
+            vals_ = [(c_[0], c_[1][1].concrete() if len(c_[1]) > 1 and hasattr(c_[1][1], 'concrete') else (c_[1][1] if len(c_[1]) > 1 else None)) for c_ in calls]
+            wanted = [('simple', new_value.strip()), ('raw', ' ' + new_value.strip() + '\n')]
+            if len(old_lines) > 1 and not calls:
+                rep.fail('C05.R5', f.site, what, 'the field holds %r and is assigned %r: nothing is handed to the paragraph -- the assignment is dropped and the field keeps its old lines' % (
+                    ''.join(old_lines), new_value), where=f.where)
+            elif calls and (len(calls) != 1 or vals_[0] not in wanted):
+                rep.fail('C05.R5', f.site, what, 'the field holds %r and is assigned %r: the paragraph receives %r' % (''.join(old_lines), new_value, vals_), where=f.where)
+            else:
+                rep.ok('C05.R5', f.site, what, 'one update with the new value' if calls else 'the field already reads like this: left as it is')
     # a replaced field keeps its comment: with comment preservation on (and ambiguous fields auto-resolved) the comment
     # element of the old field is handed to the setter as the object itself, not re-rendered from text
     def kept(cname, old_line, F, R):
@@ -646,7 +697,7 @@ def r5_setitem_routing(rep, src):
         line0 = heap.alloc('Deb822ValueLineElement', {}, name='@old_line0')
         ve_ = heap.alloc('Deb822ValueElement', {'value_lines': heap.new_list([line0]), '_value_entry_elements': heap.new_list([line0])}, name='@old_value')
         heap.kv = heap.alloc('Deb822KeyValuePairElement', {'comment_element': comment, '_comment_element': comment, 'value_element': ve_, '_value_element': ve_}, name='@old_field')
-        para = heap.alloc('Paragraph', {}, name='@paragraph')
+        para = heap.alloc('Paragraph', {'has_duplicate_fields': False}, name='@paragraph')
         me = heap.alloc('Deb822ParagraphToStrWrapperMixin', {
             '_preserve_field_comments_on_field_updates': True, '_auto_resolve_ambiguous_fields': True,
             '_auto_map_initial_line_whitespace': True, '_auto_map_final_newline_in_multiline_values': True, '_paragraph': para}, name='@wrapper')
